@@ -195,6 +195,44 @@ static void caseSE3family(Prng& r) {
     castChecks("SGal3", X, {{3, 4}});
   }
   {
+    // every scalar / block accessor of the three 3D pose groups, on the owning object and through const and mutable views; isometry();
+    // the angle-axis, roll-pitch-yaw and isometry constructors must agree with the quaternion constructor of the same rotation
+    S ang = (S)sampleAngle(r); V3 ax = randVec<V3>(r); if (!(ax.norm() > 0)) ax = V3::UnitX(); ax.normalize();
+    Eigen::AngleAxis<S> AA(ang, ax); Eigen::Quaternion<S> QA(AA); SO3<S> RA(QA);
+    S ro = (S)sampleAngle(r), pi = (S)sampleAngle(r), ya = (S)sampleAngle(r); SO3<S> Er(ro, pi, ya);
+    const double sc = std::max({1.0, (double)t.cwiseAbs().maxCoeff(), (double)v.cwiseAbs().maxCoeff()});
+    const SE3<S> X3(t, Q); const SE_2_3<S> X5(t, Q, v); const SGal3<S> XG(t, Q, v, tm);
+    auto acc3 = [&](const char* n, S x, S y, S z, const V3& tr, const Eigen::Matrix<S, 3, 3>& Rm, bool isoOk, const Eigen::Matrix<S, 3, 3>& Rwant) {
+      bool ok = x == t(0) && y == t(1) && z == t(2) && exactEq(tr, t) && exactEq(Rm, Rwant) && isoOk;
+      cell(std::string("pose-accessors/") + n, ok ? 0 : 1); if (!ok) viol(std::string("accessor-differs/") + n, 1, j);
+    };
+    auto vel = [&](const char* n, S vx, S vy, S vz, const V3& lv) { bool ok = vx == v(0) && vy == v(1) && vz == v(2) && exactEq(lv, v); cell(std::string("velocity-accessors/") + n, ok ? 0 : 1); if (!ok) viol(std::string("accessor-differs/") + n, 1, j); };
+    const Eigen::Matrix<S, 3, 3> Rw = SO3<S>(Q).rotation();
+    auto iso3 = [&](const Eigen::Transform<S, 3, Eigen::Isometry>& iso) { return exactEq(Eigen::Matrix<S, 3, 3>(iso.linear()), Rw) && exactEq(V3(iso.translation()), t) && iso.matrix()(3, 3) == 1 && iso.matrix()(3, 0) == 0 && iso.matrix()(3, 1) == 0 && iso.matrix()(3, 2) == 0; };
+    auto iso5 = [&](const Eigen::Matrix<S, 5, 5>& iso, const Eigen::Matrix<S, 5, 5>& tr) { return exactEq(iso, tr); };   // the 5x5 groups document isometry() as the 'double direct isometry' matrix itself
+    { const Eigen::Map<const SE3<S>> c(X3.data()); SE3<S> w = X3; Eigen::Map<SE3<S>> m(w.data());
+      acc3("SE3", X3.x(), X3.y(), X3.z(), X3.translation(), X3.rotation(), iso3(X3.isometry()), Rw); acc3("Map<const SE3>", c.x(), c.y(), c.z(), c.translation(), c.rotation(), iso3(c.isometry()), Rw); acc3("Map<SE3>", m.x(), m.y(), m.z(), m.translation(), m.rotation(), iso3(m.isometry()), Rw); }
+    { const Eigen::Map<const SE_2_3<S>> c(X5.data()); SE_2_3<S> w = X5; Eigen::Map<SE_2_3<S>> m(w.data());
+      acc3("SE_2_3", X5.x(), X5.y(), X5.z(), X5.translation(), X5.rotation(), iso5(X5.isometry(), X5.transform()), Rw); acc3("Map<const SE_2_3>", c.x(), c.y(), c.z(), c.translation(), c.rotation(), iso5(c.isometry(), c.transform()), Rw); acc3("Map<SE_2_3>", m.x(), m.y(), m.z(), m.translation(), m.rotation(), iso5(m.isometry(), m.transform()), Rw);
+      vel("SE_2_3", X5.vx(), X5.vy(), X5.vz(), X5.linearVelocity()); vel("Map<const SE_2_3>", c.vx(), c.vy(), c.vz(), c.linearVelocity()); vel("Map<SE_2_3>", m.vx(), m.vy(), m.vz(), m.linearVelocity()); }
+    { const Eigen::Map<const SGal3<S>> c(XG.data()); SGal3<S> w = XG; Eigen::Map<SGal3<S>> m(w.data());
+      acc3("SGal3", XG.x(), XG.y(), XG.z(), XG.translation(), XG.rotation(), iso5(XG.isometry(), XG.transform()), Rw); acc3("Map<const SGal3>", c.x(), c.y(), c.z(), c.translation(), c.rotation(), iso5(c.isometry(), c.transform()), Rw); acc3("Map<SGal3>", m.x(), m.y(), m.z(), m.translation(), m.rotation(), iso5(m.isometry(), m.transform()), Rw);
+      vel("SGal3", XG.vx(), XG.vy(), XG.vz(), XG.linearVelocity()); vel("Map<const SGal3>", c.vx(), c.vy(), c.vz(), c.linearVelocity()); vel("Map<SGal3>", m.vx(), m.vy(), m.vz(), m.linearVelocity());
+      bool ok = XG.t() == tm && c.t() == tm && m.t() == tm; cell("time-accessor/SGal3", ok ? 0 : 1); if (!ok) viol("accessor-differs/SGal3::t()", 1, j); }
+    // angle-axis constructors == quaternion constructor of Quaternion(angle-axis)
+    { bool ok = exactEq(SE3<S>(t, AA).coeffs(), SE3<S>(t, QA).coeffs()) && exactEq(SE_2_3<S>(t, AA, v).coeffs(), SE_2_3<S>(t, QA, v).coeffs()) && exactEq(SGal3<S>(t, AA, v, tm).coeffs(), SGal3<S>(t, QA, v, tm).coeffs());
+      cell("angle-axis-constructors", ok ? 0 : 1); if (!ok) viol("constructor-inconsistent/(t,angle-axis,...)", 1, j);
+      double e = std::max({sameTransform(SE3<S>(t, AA), SE3<S>(t, RA)), sameTransform(SE_2_3<S>(t, AA, v), SE_2_3<S>(t, RA, v)), sameTransform(SGal3<S>(t, AA, v, tm), SGal3<S>(t, RA, v, tm))}) / sc;
+      cell("angle-axis-vs-SO3-constructors", e); if (!(e <= 64 * U)) viol("constructor-inconsistent/(t,angle-axis,...)-vs-(t,SO3,...)", e, j); }
+    // roll-pitch-yaw constructor of SE_2_3 (x,y,z,roll,pitch,yaw,vx,vy,vz)
+    { SE_2_3<S> E(t(0), t(1), t(2), ro, pi, ya, v(0), v(1), v(2));
+      bool ok = exactEq(typename SO3<S>::DataType(E.quat().coeffs()), Er.coeffs()) && exactEq(V3(E.translation()), t) && exactEq(V3(E.linearVelocity()), v);
+      cell("SE_2_3(x,y,z,r,p,y,vx,vy,vz)", ok ? 0 : 1); if (!ok) viol("constructor-inconsistent/SE_2_3(x,y,z,r,p,y,vx,vy,vz)", 1, j); }
+    // isometry constructors fed with the element's own isometry()
+    { double e = std::max({sameTransform(SE3<S>(X3.isometry()), X3), sameTransform(SE_2_3<S>(X3.isometry(), v), X5), sameTransform(SGal3<S>(X3.isometry(), v, tm), XG)}) / sc;
+      cell("isometry-constructors", e); if (!(e <= 64 * U)) viol("accessors-fed-back/(isometry,...)", e, j); }
+  }
+  {
     Rn<S, 3> X(t); if (!exactEq(V3(X.coeffs()), t)) viol("accessor-differs/R3", 1, j);
     typedef Bundle<S, SE2, SO3, R3> B;
     SE2<S> a((S)1, (S)2, (S)0.3); R3<S> c(t);
@@ -233,7 +271,7 @@ static void caseTangents(Prng& r) {
   tangentAccessors<SGal3Tangent<S>>("SGal3Tangent", r, {0, 6}); tangentAccessors2<SGal3Tangent<S>>("SGal3Tangent", r, 3);
   { typename SGal3Tangent<S>::DataType c; for (int k = 0; k < 10; ++k) c(k) = (S)(k + 1); SGal3Tangent<S> t(c); const Eigen::Map<const SGal3Tangent<S>> m(c.data()); if (!(t.t() == c(9) && m.t() == c(9))) viol("tangent-accessor-wrong-slot/SGal3Tangent::t", 1, J().vec("t", c)); }
   { SE2Tangent<S> t((S)1, (S)2, (S)3); const Eigen::Map<const SE2Tangent<S>> m(t.data()); bool ok = t.x() == 1 && t.y() == 2 && t.angle() == 3 && m.x() == 1 && m.y() == 2 && m.angle() == 3; cell("tangent-accessors/SE2Tangent", ok ? 0 : 1); if (!ok) viol("tangent-accessor-wrong-slot/SE2Tangent", 1, J().vec("t", t.coeffs())); }
-  { SO3Tangent<S> t(typename SO3Tangent<S>::DataType((S)1, (S)2, (S)3)); const Eigen::Map<const SO3Tangent<S>> m(t.data()); bool ok = t.x() == 1 && t.y() == 2 && t.z() == 3 && m.x() == 1 && m.z() == 3 && blockIs(t.ang(), t.data(), 0, 3); cell("tangent-accessors/SO3Tangent", ok ? 0 : 1); if (!ok) viol("tangent-accessor-wrong-slot/SO3Tangent", 1, J().vec("t", t.coeffs())); }
+  { SO3Tangent<S> t(typename SO3Tangent<S>::DataType((S)1, (S)2, (S)3)); const Eigen::Map<const SO3Tangent<S>> m(t.data()); bool ok = t.x() == 1 && t.y() == 2 && t.z() == 3 && m.x() == 1 && m.z() == 3 && blockIs(t.ang(), t.data(), 0, 3) && static_cast<const SO3Tangent<S>&>(t).ang()(1) == 2 && m.ang()(2) == 3; cell("tangent-accessors/SO3Tangent", ok ? 0 : 1); if (!ok) viol("tangent-accessor-wrong-slot/SO3Tangent", 1, J().vec("t", t.coeffs())); }
   { SO2Tangent<S> t((S)0.7); const Eigen::Map<const SO2Tangent<S>> m(t.data()); bool ok = t.angle() == (S)0.7 && m.angle() == (S)0.7; cell("tangent-accessors/SO2Tangent", ok ? 0 : 1); if (!ok) viol("tangent-accessor-wrong-slot/SO2Tangent", 1, J().vec("t", t.coeffs())); }
 }
 
